@@ -24,6 +24,10 @@ package dhcpv4
 //@ contract OptionCode.Code
 //@   ensures[std] typeIs(self, optionCode) ==> int(result) == int(self.(optionCode))
 //@   ensures[generic] typeIs(self, GenericOptionCode) ==> int(result) == int(self.(GenericOptionCode))
+//@   ensures[rai] typeIs(self, raiSubOptionCode) ==> int(result) == int(self.(raiSubOptionCode))
+
+//@ contract (raiSubOptionCode).Code
+//@   ensures int(result) == int(o)
 
 //@ contract (optionCode).Code
 //@   ensures int(result) == int(o)
@@ -79,40 +83,42 @@ package dhcpv4
 //@   ensures[rest] int(d.Flags) % 32768 == int(old(d.Flags)) % 32768
 
 // the numeric code of an option code value: both code types of the library are a uint8 in an interface
-//@ define codeOf(x) = ite(typeIs(x, optionCode), int(x.(optionCode)), int(x.(GenericOptionCode)))
-//@ define isCode(x) = x != nil && (typeIs(x, optionCode) || typeIs(x, GenericOptionCode))
+//@ define codeOf(x) = ite(typeIs(x, optionCode), int(x.(optionCode)), ite(typeIs(x, GenericOptionCode), int(x.(GenericOptionCode)), int(x.(raiSubOptionCode))))
+//@ define isCode(x) = x != nil && (typeIs(x, optionCode) || typeIs(x, GenericOptionCode) || typeIs(x, raiSubOptionCode))
+//@ define isOpt(opt) = isCode(opt.Code) && opt.Value != nil
 
 // every option of o other than code c is what it was at entry
 //@ define optsSameExcept(o, c) = forall k uint8 :: {mapdom(o, k)} {mapval(o, k)} int(k) != c ==> has(o, k) == old(has(o, k)) && o[k] == old(o[k])
 //@ define optsSame(o) = forall k uint8 :: {mapdom(o, k)} {mapval(o, k)} has(o, k) == old(has(o, k)) && o[k] == old(o[k])
 
 //@ contract (Options).Get
-//@   requires isCode(code)
-//@   ensures result == o[uint8(codeOf(code))]
+//@   ensures isCode(code) ==> result == o[uint8(codeOf(code))]
 
 //@ contract (Options).Update
-//@   requires o != nil && isCode(option.Code) && option.Value != nil
 //@   modifies o
-//@   ensures[set] has(o, uint8(codeOf(option.Code)))
-//@   ensures[generic] typeIs(option.Value, OptionGeneric) ==> o[uint8(codeOf(option.Code))] == option.Value.(OptionGeneric).Data
-//@   ensures[msgtype] typeIs(option.Value, MessageType) ==> len(o[uint8(codeOf(option.Code))]) == 1 && int(o[uint8(codeOf(option.Code))][0]) == int(option.Value.(MessageType)) && fresh(o[uint8(codeOf(option.Code))])
-//@   ensures[ip] typeIs(option.Value, IP) && len(option.Value.(IP)) == 4 ==> string(o[uint8(codeOf(option.Code))]) == string(option.Value.(IP))
-//@   ensures[others] optsSameExcept(o, codeOf(option.Code))
+//@   ensures[set] o != nil && isOpt(option) ==> has(o, uint8(codeOf(option.Code)))
+//@   ensures[generic] o != nil && isOpt(option) && typeIs(option.Value, OptionGeneric) ==> o[uint8(codeOf(option.Code))] == option.Value.(OptionGeneric).Data
+//@   ensures[msgtype] o != nil && isOpt(option) && typeIs(option.Value, MessageType) ==> len(o[uint8(codeOf(option.Code))]) == 1 && int(o[uint8(codeOf(option.Code))][0]) == int(option.Value.(MessageType)) && fresh(o[uint8(codeOf(option.Code))])
+//@   ensures[ip] o != nil && isOpt(option) && typeIs(option.Value, IP) && len(option.Value.(IP)) == 4 ==> string(o[uint8(codeOf(option.Code))]) == string(option.Value.(IP))
+//@   ensures[others] o != nil && isOpt(option) ==> optsSameExcept(o, codeOf(option.Code))
 
+// UpdateOption: a packet without option map gets a new one; otherwise the map is kept and updated in place
 //@ contract (*DHCPv4).UpdateOption
-//@   requires d != nil && d.Options != nil && isCode(opt.Code) && opt.Value != nil
-//@   modifies d.Options
-//@   ensures[set] has(d.Options, uint8(codeOf(opt.Code)))
-//@   ensures[generic] typeIs(opt.Value, OptionGeneric) ==> d.Options[uint8(codeOf(opt.Code))] == opt.Value.(OptionGeneric).Data
-//@   ensures[msgtype] typeIs(opt.Value, MessageType) ==> len(d.Options[uint8(codeOf(opt.Code))]) == 1 && int(d.Options[uint8(codeOf(opt.Code))][0]) == int(opt.Value.(MessageType)) && fresh(d.Options[uint8(codeOf(opt.Code))])
-//@   ensures[ip] typeIs(opt.Value, IP) && len(opt.Value.(IP)) == 4 ==> string(d.Options[uint8(codeOf(opt.Code))]) == string(opt.Value.(IP))
-//@   ensures[others] optsSameExcept(d.Options, codeOf(opt.Code))
+//@   modifies &d.Options, d.Options
+//@   ensures[map] d.Options != nil && (old(d.Options) != nil ==> d.Options == old(d.Options)) && (old(d.Options) == nil ==> fresh(d.Options))
+//@   ensures[set] isOpt(opt) ==> has(d.Options, uint8(codeOf(opt.Code)))
+//@   ensures[generic] isOpt(opt) && typeIs(opt.Value, OptionGeneric) ==> d.Options[uint8(codeOf(opt.Code))] == opt.Value.(OptionGeneric).Data
+//@   ensures[msgtype] isOpt(opt) && typeIs(opt.Value, MessageType) ==> len(d.Options[uint8(codeOf(opt.Code))]) == 1 && int(d.Options[uint8(codeOf(opt.Code))][0]) == int(opt.Value.(MessageType)) && fresh(d.Options[uint8(codeOf(opt.Code))])
+//@   ensures[ip] isOpt(opt) && typeIs(opt.Value, IP) && len(opt.Value.(IP)) == 4 ==> string(d.Options[uint8(codeOf(opt.Code))]) == string(opt.Value.(IP))
+//@   ensures[others] isOpt(opt) && old(d.Options) != nil ==> optsSameExcept(d.Options, codeOf(opt.Code))
+//@   ensures[others-new] isOpt(opt) && old(d.Options) == nil ==> (forall k uint8 :: {mapdom(d.Options, k)} int(k) != codeOf(opt.Code) ==> !has(d.Options, k))
 
 // WithOptionCopied: the option is copied byte for byte (the very same value) when the request has it with a non-nil
 // value; otherwise the packet is left alone
 //@ contract WithOptionCopied$1
 //@   requires d != nil && request != nil && ref(d) != ref(request) && d.Options != nil && ref(d.Options) != ref(request.Options) && isCode(opt)
-//@   modifies d.Options
+//@   modifies &d.Options, d.Options
+//@   ensures[map] d.Options == old(d.Options)
 //@   let c = codeOf(opt)
 //@   let v = request.Options[uint8(codeOf(opt))]
 //@   ensures[copied] v != nil ==> has(d.Options, uint8(c)) && d.Options[uint8(c)] == v
@@ -120,13 +126,14 @@ package dhcpv4
 //@   ensures[absent] v == nil ==> optsSame(d.Options)
 
 //@ contract WithOption$1
-//@   requires d != nil && d.Options != nil && isCode(opt.Code) && opt.Value != nil
-//@   modifies d.Options
-//@   ensures[set] has(d.Options, uint8(codeOf(opt.Code)))
-//@   ensures[generic] typeIs(opt.Value, OptionGeneric) ==> d.Options[uint8(codeOf(opt.Code))] == opt.Value.(OptionGeneric).Data
-//@   ensures[msgtype] typeIs(opt.Value, MessageType) ==> len(d.Options[uint8(codeOf(opt.Code))]) == 1 && int(d.Options[uint8(codeOf(opt.Code))][0]) == int(opt.Value.(MessageType)) && fresh(d.Options[uint8(codeOf(opt.Code))])
-//@   ensures[ip] typeIs(opt.Value, IP) && len(opt.Value.(IP)) == 4 ==> string(d.Options[uint8(codeOf(opt.Code))]) == string(opt.Value.(IP))
-//@   ensures[others] optsSameExcept(d.Options, codeOf(opt.Code))
+//@   requires d != nil && d.Options != nil
+//@   modifies &d.Options, d.Options
+//@   ensures[map] d.Options == old(d.Options)
+//@   ensures[set] isOpt(opt) ==> has(d.Options, uint8(codeOf(opt.Code)))
+//@   ensures[generic] isOpt(opt) && typeIs(opt.Value, OptionGeneric) ==> d.Options[uint8(codeOf(opt.Code))] == opt.Value.(OptionGeneric).Data
+//@   ensures[msgtype] isOpt(opt) && typeIs(opt.Value, MessageType) ==> len(d.Options[uint8(codeOf(opt.Code))]) == 1 && int(d.Options[uint8(codeOf(opt.Code))][0]) == int(opt.Value.(MessageType)) && fresh(d.Options[uint8(codeOf(opt.Code))])
+//@   ensures[ip] isOpt(opt) && typeIs(opt.Value, IP) && len(opt.Value.(IP)) == 4 ==> string(d.Options[uint8(codeOf(opt.Code))]) == string(opt.Value.(IP))
+//@   ensures[others] isOpt(opt) ==> optsSameExcept(d.Options, codeOf(opt.Code))
 
 // ---------- caller-supplied modifiers ----------
 
@@ -186,10 +193,11 @@ func userVal(k uint8) string { return "" }
 
 // WithRequestedOptions: the parameter request list (option 55) is present afterwards; every other option is untouched
 //@ contract WithRequestedOptions$1
-//@   requires d != nil && d.Options != nil
-//@   modifies d.Options
+//@   requires d != nil
+//@   modifies &d.Options, d.Options
+//@   ensures[map] d.Options != nil && (old(d.Options) != nil ==> d.Options == old(d.Options))
 //@   ensures[set] has(d.Options, 55)
-//@   ensures[others] optsSameExcept(d.Options, 55)
+//@   ensures[others] old(d.Options) != nil ==> optsSameExcept(d.Options, 55)
 
 //@ define defaultsOnly(err, modifiers) = err == nil && len(modifiers) == 0
 //@ define modsOK(modifiers) = len(modifiers) <= 1 && (forall i int :: {modifiers[i]} 0 <= i && i < len(modifiers) ==> modifiers[i] != nil)
